@@ -28,6 +28,8 @@ Inductive hstat := HCompleted | HAbandoned | HPanicked.
 Inductive cbstat := CbOk | CbFail | CbPanicked | CbCancelled.
 Inductive tkind := TInterval | TIntervalWith | TDelayedSend | TDelayedExec.
 Inductive endk := EndReturned | EndPanicked | EndCancelled.
+Inductive bwhat := BPubBegin | BHolds | BTarget | BPubEnd | BSub | BUnsub.
+Inductive topk := TPublish | TSubscribe | TUnsubscribe.
 Inductive regk := RgFrom | RgSetup | RgRegister | RgReplace | RgUnregister | RgTryFrom | RgAlready.
 
 Record spawn_cfg := {
@@ -76,14 +78,17 @@ Inductive event :=
   | EvReg (o : oid) (c : nat) (k : regk) (ty : nat) (h : hid)
   | EvSubscribe (a : aid) (topic : nat) (o : oid)
   | EvDeliver (a : aid) (topic v : nat)
-  | EvPubCopy (topic : nat) (o : oid) (v : nat)
+  | EvPubCopy (topic : nat) (o : oid) (v : nat) (src : oid) (b : aid) (h : hid)
   | EvRelease (a : aid) (n : nat)
   | EvQuery (c : nat) (h : hid) (running : bool) (b : bool)
   | EvCrash (a : aid)
   | EvStreamClose (a : aid)
   | EvBcastBegin (a : aid) (ty : nat)
   | EvTimerSleep (a : aid) (k : nat) (d : nat)
-  | EvProbe (a : aid) (o : oid).
+  | EvProbe (a : aid) (o : oid)
+  | EvBroker (b : aid) (w : bwhat) (a : aid) (h : hid)
+  | EvTopicOp (o : oid) (c : nat) (k : topk) (topic x : nat)
+  | EvTopicRet (o : oid) (ok : bool).
 
 (** * Decoding a line of numbers *)
 Definition dec_bool (n : nat) : bool := negb (Nat.eqb n 0).
@@ -116,6 +121,13 @@ Definition dec_cbstat (n : nat) : option cbstat :=
   match n with 0 => Some CbOk | 1 => Some CbFail | 2 => Some CbPanicked | 3 => Some CbCancelled | _ => None end.
 Definition dec_tkind (n : nat) : option tkind :=
   match n with 0 => Some TInterval | 1 => Some TIntervalWith | 2 => Some TDelayedSend | 3 => Some TDelayedExec | _ => None end.
+Definition dec_bwhat (n : nat) : option bwhat :=
+  match n with
+  | 0 => Some BPubBegin | 1 => Some BHolds | 2 => Some BTarget | 3 => Some BPubEnd
+  | 4 => Some BSub | 5 => Some BUnsub | _ => None
+  end.
+Definition dec_topk (n : nat) : option topk :=
+  match n with 0 => Some TPublish | 1 => Some TSubscribe | 2 => Some TUnsubscribe | _ => None end.
 Definition dec_endk (n : nat) : option endk :=
   match n with 0 => Some EndReturned | 1 => Some EndPanicked | 2 => Some EndCancelled | _ => None end.
 Definition dec_regk (n : nat) : option regk :=
@@ -330,7 +342,7 @@ Definition decode (l : list nat) : option event :=
       end
     | 36 =>
       match args with
-      | [topic; o; v] => Some (EvPubCopy topic o v)
+      | [topic; o; v; src; b; h] => Some (EvPubCopy topic o v src b h)
       | _ => None
       end
     | 37 =>
@@ -366,6 +378,21 @@ Definition decode (l : list nat) : option event :=
     | 43 =>
       match args with
       | [a; o] => Some (EvProbe a o)
+      | _ => None
+      end
+    | 44 =>
+      match args with
+      | [b; w; a; h] => omap (fun w => EvBroker b w a h) (dec_bwhat w)
+      | _ => None
+      end
+    | 45 =>
+      match args with
+      | [o; c; k; topic; x] => omap (fun k => EvTopicOp o c k topic x) (dec_topk k)
+      | _ => None
+      end
+    | 46 =>
+      match args with
+      | [o; ok] => Some (EvTopicRet o (dec_bool ok))
       | _ => None
       end
     | _ => None
